@@ -441,6 +441,8 @@ def run(chk):
         geo_part(chk, pid, rng, ng[thorough], plan)
     if pid in ('C02', 'C05'):
         model_part(chk, pid, rng, 4000 if thorough else 1200)
+    if pid == 'C04':
+        views_part(chk, rng, 3000 if thorough else 500)
     chk.count('abs-runs', evaluations=len(runs), nontrivial=nontriv, traces=len(runs), tlc_enumerated=n_tlc,
               events=sum(len(x['events']) for x in runs))
     ex = next((x for x in runs if nontrivial(pid, x)), runs[0])
@@ -554,6 +556,30 @@ def geo_part(chk, pid, rng, n, plan):
                            'clause': clause, 'at': x['at']}, sig={'clause': clause, 'family': 'geo'})
     chk.count('real-matcher-runs', evaluations=len(runs), nontrivial=nontriv, traces=len(runs),
               continue_with_distance_calls=sum(1 for r in runs for e in r['events'] if e['op'] == 'cwd'))
+
+
+def views_part(chk, rng, n):
+    """read-only views of finished matches (beyond the listed properties): recorded answers of the real library
+    validated by TLC against spec/Views.tla; mismatches are reported as EXTRA-DRIFT (never as a violation of a
+    listed property)."""
+    recs = []
+    for i in range(n):
+        inst = geom.gen_instance(rng, maxn=6, maxT=5, G=rng.choice([2, 3, 4]))
+        cf = geom.gen_config(rng)
+        ops = geo_ops(rng, len(inst['path']), cf, ('extend', 'widen') if i % 3 == 0 else ())
+        rec = geom.views_record(300000 + i, inst, cf, ops, unique=(i % 2 == 0))
+        if rec is not None:
+            recs.append(rec)
+    path = os.path.join(common.scratch(), 'views.json')
+    with open(path, 'w') as f:
+        json.dump(common.nonull({'runs': recs}), f)
+    r = run_tlc('Views', 'Views.cfg', workers=16, timeout=1800, env={'TRACE_FILE': path})
+    chk.tlc(r, f'Views: {len(recs)} finished matches, read-only views validated (extra coverage)')
+    os.remove(path)
+    bad = [x for x in r.json if x['clause']]
+    for x in bad[:5]:
+        print(f'EXTRA-DRIFT view={x["clause"]} run={x["tid"]} (a read-only view differs from spec/Views.tla; not a listed property)', flush=True)
+    chk.cov['views'] = {'validated': len(r.json), 'mismatches': len(bad)}
 
 
 MODEL_GEOMETRY = ('distance-is-not-the-true-nearest-distance', 'distance-fields-inconsistent',
